@@ -74,29 +74,33 @@ Inductive expect : Type :=
 
 Definition fin_is_drop (f : drain_end) : bool := match f with DropIt => true | ForgetIt => false end.
 
-(** [g_step cap g o after]: what the plain model says about operation [o] on grid [g].
+(** [g_step lim cap g o after]: what the plain model says about operation [o] on grid [g].
     [after] is the observed data after the step, used only to learn the identities that
-    [T::default()] produced. *)
-Fixpoint g_step (cap : N) (g : grid elt) (o : hop) (after : list elt) {struct o} : expect :=
+    [T::default()] produced.  [lim]: arrays that [new] / [init] would make larger than this
+    are not materialised by the run-time oracle (it passes 4096; the refinement theorem
+    holds for every [lim]).  Every [N.to_nat] below is taken only after a comparison has
+    shown the number to be at most a dimension or a length of the grid, so that evaluating
+    the oracle never builds a huge unary number. *)
+Fixpoint g_step (lim cap : N) (g : grid elt) (o : hop) (after : list elt) {struct o} : expect :=
   let unchanged := ExpGrid false g None in
   match o with
-  | HBomb _ o' => g_step cap g o' after
+  | HBomb _ o' => g_step lim cap g o' after
   | HFromVec c r d =>
-      if zero_rule_ok c r && (c * r =? N.of_nat (length d))%N && fits_nat c && fits_nat r
+      if zero_rule_ok c r && (c * r =? N.of_nat (length d))%N
       then ExpGrid true (g_of_data (N.to_nat c) (N.to_nat r) d) None
       else unchanged
   | HNew c r =>
-      if zero_rule_ok c r && (c * r <=? 4096)%N
+      if zero_rule_ok c r && (c * r <=? lim)%N && (c * r <=? cap)%N && (c * r <? W)%N
       then ExpGrid true (g_of_data (N.to_nat c) (N.to_nat r) after) None
-      else if zero_rule_ok c r && (c * r <=? cap)%N then ExpAny else unchanged
+      else if zero_rule_ok c r && (c * r <=? cap)%N && (c * r <? W)%N then ExpAny else unchanged
   | HInit c r v =>
-      if zero_rule_ok c r && (c * r <=? 4096)%N
+      if zero_rule_ok c r && (c * r <=? lim)%N && (c * r <=? cap)%N && (c * r <? W)%N
       then ExpGrid true (g_of_data (N.to_nat c) (N.to_nat r) (repeat v (N.to_nat (c * r)))) None
-      else if zero_rule_ok c r && (c * r <=? cap)%N then ExpAny else unchanged
+      else if zero_rule_ok c r && (c * r <=? cap)%N && (c * r <? W)%N then ExpAny else unchanged
   | HDefault => ExpGrid true [] None
   | HInsertRow idx s =>
       if honest s then
-        if fits_nat idx then
+        if (idx <=? N.of_nat (g_height g))%N then
           match g_insert_row (N.to_nat idx) (items s) g with
           | Some g' => ExpGrid true g' None
           | None => unchanged
@@ -112,7 +116,7 @@ Fixpoint g_step (cap : N) (g : grid elt) (o : hop) (after : list elt) {struct o}
       else ExpAny
   | HInsertCol idx s =>
       if honest s then
-        if fits_nat idx then
+        if (idx <=? N.of_nat (g_width g))%N then
           match g_insert_col (N.to_nat idx) (items s) g with
           | Some g' => ExpGrid true g' None
           | None => unchanged
@@ -127,7 +131,7 @@ Fixpoint g_step (cap : N) (g : grid elt) (o : hop) (after : list elt) {struct o}
         end
       else ExpAny
   | HRemoveRow idx steps fin =>
-      if fits_nat idx then
+      if (idx <? N.of_nat (g_height g))%N then
         match g_remove_row (N.to_nat idx) g with
         | Some (line, g') =>
             if fin_is_drop fin then ExpGrid true g' (Some (ideal_drain steps line)) else ExpAny
@@ -145,7 +149,7 @@ Fixpoint g_step (cap : N) (g : grid elt) (o : hop) (after : list elt) {struct o}
           end
       end
   | HRemoveCol idx steps fin =>
-      if fits_nat idx then
+      if (idx <? N.of_nat (g_width g))%N then
         match g_remove_col (N.to_nat idx) g with
         | Some (line, g') =>
             if fin_is_drop fin then ExpGrid true g' (Some (ideal_drain steps line)) else ExpAny
@@ -179,7 +183,7 @@ Fixpoint g_step (cap : N) (g : grid elt) (o : hop) (after : list elt) {struct o}
      completed fill has replaced; the shape rules are checked, the cells by C11's oracle *)
   | HFuse _ _ _ => ExpAny
   | HCloneFrom c r d =>
-      if zero_rule_ok c r && (c * r =? N.of_nat (length d))%N && fits_nat c && fits_nat r
+      if zero_rule_ok c r && (c * r =? N.of_nat (length d))%N
       then ExpGrid true (g_of_data (N.to_nat c) (N.to_nat r) d) (Some [1%N])
       else unchanged
   end.
@@ -201,12 +205,12 @@ Definition obs_grid (s : sobs) : grid elt := g_of_data (s_cols s) (s_rows s) (s_
 Definition eff_op (o : hop) (s : sobs) : hop :=
   match o with HFuse _ _ o' => if s_ok s then o' else o | _ => o end.
 
-Fixpoint spec_steps (cap : N) (g : grid elt) (ops : list hop) (obs : list sobs) : bool :=
+Fixpoint spec_steps (lim cap : N) (g : grid elt) (ops : list hop) (obs : list sobs) : bool :=
   match ops, obs with
   | [], [] => true
   | o :: ops', s :: obs' =>
       shape_ok s
-      && match g_step cap g (eff_op o s) (s_data s) with
+      && match g_step lim cap g (eff_op o s) (s_data s) with
          | ExpGrid ok g' out =>
              (* under an injected destructor panic the call may end in a (caught) panic and
                 its return values are lost; the array must be the same nevertheless *)
@@ -217,8 +221,8 @@ Fixpoint spec_steps (cap : N) (g : grid elt) (ops : list hop) (obs : list sobs) 
                 | Some l => (is_bomb o && negb (s_ok s)) || list_N_eqb (s_out s) l
                 | None => true
                 end
-             && spec_steps cap g' ops' obs'
-         | ExpAny => spec_steps cap (obs_grid s) ops' obs'
+             && spec_steps lim cap g' ops' obs'
+         | ExpAny => spec_steps lim cap (obs_grid s) ops' obs'
          end
   | _, _ => false
   end.
@@ -303,7 +307,7 @@ Definition with_case (inp obs : list N)
 
 (** C01, C06, C07: shape at every step and agreement with the plain model *)
 Definition oracle_hist_spec (inp obs : list N) : bool :=
-  with_case inp obs (fun cf ops so _ => spec_steps (cf_cap cf) [] ops so).
+  with_case inp obs (fun cf ops so _ => spec_steps 4096 (cf_cap cf) [] ops so).
 
 (** C05 *)
 Definition oracle_ledger (inp obs : list N) : bool :=
@@ -317,7 +321,7 @@ Definition oracle_fault (inp obs : list N) : bool :=
   with_case inp obs (fun cf ops so _ =>
     forallb shape_ok so && subset_steps [] ops so
     && (negb (cf_track cf) || ledger_steps [] ops so)
-    && spec_steps (cf_cap cf) [] ops so).
+    && spec_steps 4096 (cf_cap cf) [] ops so).
 
 (** * Zero-sized elements (family 2): shape and count ledger *)
 (** per step: shape rules on the counts; the number of live elements never falls below
